@@ -98,6 +98,45 @@ C["C26"] = {
  "trusted_base": ENGINE_TB + ["equivalence relation vPacketEq/vPropsEq in harness/packets/c26.go (omitted optional property = its specified default)"],
 }
 
+# ---------------- C30 ----------------
+C["C30"] = {
+ "pkgs": ["."],
+ "technique": "differential symbolic execution of IsValidFilter / processSubscribe against a reference validity predicate written from the statement; every string over the alphabet up to N bytes",
+ "quick": {"harnesses": [H("VerifC30Filter", N=5), H("VerifC30Share", N=4), H("VerifC30Topic", N=5)], "budget_s": 200, "witnesses": 8,
+   "bounds": "filters: every string of 0..5 bytes over {/ + # $ a s r h e}; share filters: '$share/' + every string of 0..4 bytes over {/ + # a g}; publish topics: every string of 0..5 bytes over {/ + # $ S Y a}"},
+ "thorough": {"harnesses": [H("VerifC30Filter", N=8), H("VerifC30Share", N=7), H("VerifC30Topic", N=8)], "budget_s": 1500, "witnesses": 24,
+   "bounds": "as quick with 0..8, 0..7, 0..8 bytes"},
+ "outside_bounds": ["upper/lower-case variants of $share and $SYS (the code folds case, the statement is silent)", "bytes outside the alphabet (they behave like 'a' in the code paths concerned)", "longer strings"],
+ "stubs": ["strings.IndexRune/ContainsRune/ContainsAny/EqualFold: term-level intrinsics (ASCII)"],
+ "trusted_base": ENGINE_TB + ["reference predicate refValidFilter/refValidTopic in harness/root/ref.go"],
+}
+
+# ---------------- C01 ----------------
+C["C01"] = {
+ "pkgs": ["."],
+ "technique": "differential symbolic execution of the real topic trie (Subscribe/InlineSubscribe/Subscribers) against a level-wise reference matcher; filter and topic bytes symbolic",
+ "quick": {"harnesses": [H("VerifC01Client", F=4, T=3), H("VerifC01Shared", F=3, T=3), H("VerifC01Inline", F=3, T=3), H("VerifC01Client", F=3, T=3, EXTRA=1), H("VerifC01Two", F=2, T=3)], "budget_s": 300, "witnesses": 8,
+   "bounds": "one subscription (client / $share/g/ / inline) with every valid filter of 1..4 (client) or 1..3 bytes over {/ + # $ a b} against every topic of 1..3 bytes over {/ $ a b}; two overlapping subscriptions of one client with filters of 1..2 bytes"},
+ "thorough": {"harnesses": [H("VerifC01Client", F=6, T=5), H("VerifC01Shared", F=5, T=4), H("VerifC01Inline", F=5, T=4), H("VerifC01Two", F=3, T=3)], "budget_s": 3000, "witnesses": 24,
+   "bounds": "filters up to 6 bytes, topics up to 5 bytes (3 levels incl. empty levels); two subscriptions with filters up to 3 bytes"},
+ "outside_bounds": ["more than two subscriptions, deeper tries", "filters are assumed valid by the reference predicate (invalid filters are C30's)"],
+ "stubs": ["sync.RWMutex: lock tracker (never blocks in a single goroutine)"],
+ "trusted_base": ENGINE_TB + ["reference matcher refMatch in harness/root/ref.go (30 lines, MQTT 4.7)"],
+}
+
+# ---------------- C02 ----------------
+C["C02"] = {
+ "pkgs": ["."],
+ "technique": "differential symbolic execution of RetainMessage/Messages against a map model filtered by the reference matcher",
+ "quick": {"harnesses": [H("VerifC02Messages", F=3, T=2, H=2)], "budget_s": 300, "witnesses": 8,
+   "bounds": "history of 2 retain/clear operations on topics of 1..2 bytes over {/ $ a b}, then every valid filter of 1..3 bytes over {/ + # $ a b}; every iteration order of maps with <= 3 entries"},
+ "thorough": {"harnesses": [H("VerifC02Messages", F=4, T=3, H=3)], "budget_s": 3000, "witnesses": 16,
+   "bounds": "3 operations, topics up to 3 bytes, filters up to 4 bytes"},
+ "outside_bounds": ["more than 2 distinct retained topics", "longer histories"],
+ "stubs": ["sync.RWMutex: lock tracker"],
+ "trusted_base": ENGINE_TB + ["refMatch; last-writer-wins map model in the harness"],
+}
+
 def main():
     os.makedirs(os.path.join(root, "checks"), exist_ok=True)
     for cid, c in C.items():
